@@ -303,6 +303,18 @@ func FuzzStructure(f *testing.F) {
 	}))
 }
 
+// FuzzSplice: the same for programs with spliced-in template nodes.
+func FuzzSplice(f *testing.F) {
+	f.Fuzz(rapid.MakeFuzz(func(t *rapid.T) {
+		c := genSplice(t)
+		o := check(c)
+		if o.Violation != "" && !(o.Finding != "" && evid.IsKnown(o.Finding)) {
+			evid.Record("fuzzsplice", c, o)
+			t.Fatalf("%s replay=%s", o.Violation, evid.SaveFailure("fuzzsplice"))
+		}
+	}))
+}
+
 func TestReplay(t *testing.T) {
-	evid.Replay(t, evid.R("fuzzstructure", check), evid.R("structure", check), evid.R("zones", check), evid.R("splice", check), evid.R("sets", checkSet))
+	evid.Replay(t, evid.R("fuzzstructure", check), evid.R("fuzzsplice", check), evid.R("structure", check), evid.R("zones", check), evid.R("splice", check), evid.R("sets", checkSet))
 }
